@@ -127,3 +127,10 @@ LEVEL["C19"] = ("Sibling agreement between the two terms_within implementations 
                 "and a dependence rule on the suggestion score.")
 NOTE["C19"] = ("Not decided: equality with the distance definition on all word pairs. Four genuine defects are known findings "
                "(no transposition in the automaton, queried word returned, constant distance in the rank).")
+LEVEL["C20"] = ("Writer/reader sibling agreement for the low-level containers: StructFile typed accessors (struct aliases "
+                "resolved through whoosh/system.py; read size = calcsize), hash-file header/bucket/slot/trailer arithmetic, "
+                "compound-file directory layout, SubFile seek-before-read typestate on the shared parent file, external "
+                "sort ordering (sort before run, all runs merged, run removed in finally), DocIdSet interface completeness, "
+                "varint/delta mirror constants.")
+NOTE["C20"] = ("Not decided: the algebraic set laws on data (e.g. BitSet._logic), growable-array thresholds, base85. The "
+               "interface gaps of MultiIdSet/ReverseIdSet/RoaringIdSet/OnDiskBitSet are known findings.")
